@@ -263,7 +263,8 @@ func exec(s Scenario) (vh.Outcome, error) {
 		faults = append(faults, Fault{"agent", i, "fail"}, Fault{"agent", i, "close"})
 	}
 	for j := 0; j < m; j++ {
-		faults = append(faults, Fault{"ca", j, "error"}, Fault{"ca", j, "panic"}, Fault{"ca", j, "error+certs"}, Fault{"ca", j, "wrongkey"}, Fault{"ca", j, "error-unknown"}, Fault{"ca", j, "error-unnamed"})
+		faults = append(faults, Fault{"ca", j, "error"}, Fault{"ca", j, "panic"}, Fault{"ca", j, "error+certs"}, Fault{"ca", j, "wrongkey"}, Fault{"ca", j, "error-unknown"}, Fault{"ca", j, "error-unnamed"},
+			Fault{"ca", j, "error-deadline"}, Fault{"ca", j, "error-canceled"}, Fault{"ca", j, "error-eof"}, Fault{"ca", j, "error-typed-signer"}, Fault{"ca", j, "error-typed-conf"})
 	}
 	for _, k := range []string{"name", "authenticate", "generate", "csrs", "addcerts"} {
 		faults = append(faults, Fault{"handler", 0, k})
@@ -351,12 +352,12 @@ func exec(s Scenario) (vh.Outcome, error) {
 	return out, nil
 }
 
-const rule = "scenarios: the real regular handler, or a harness handler producing 1..3 agent keys x 1..3 requests through the repository's AgentKey (in a third of the scenarios the requests of one key share one KeyId and name different CA keys; key pairs of the default algorithm, RSA-2048, P-256 / 384 / 521 or Ed25519), CA returning 1..3 certificates per request (validity window as requested / without expiry / until 2^63 s / stamped by a clock 90 s ahead), 0..2 stale labelled certificates in the agent, optionally a rejecting handler in front (rejecting with an error of any kind, incl. the unknown kind and kinds that have no name), run under context.Background, a cancellable context (what cmd/gensign passes) or a deadline context (each case is journaled first: a fault that kills the process instead of coming back as an error is reported with its scenario). Per scenario a fault-free run fixes the number of agent operations n and CA calls m; then EVERY (operation index 0..n-1) x {failure reply, connection closed}, every CA call x {error (plain, or typed with the unknown / an unnamed kind), panic, error handed back together with certificates, certificates issued for another key} and a panic in each of Name / Authenticate / Generate / CSRs / AddCertsToAgent of the authenticating handler, plus a panic in Authenticate of the handler in front of it, plus - for the harness handler - every way Generate can fail (typed error with / without handler name, wrapped, no keys returned as nil or as an empty list) is executed in a fresh world (exhaustive per scenario; scenarios random). Oracle: challenge fault => AllAuthFailed; agent fault before the first CA call => a typed generation error; Generate failing or returning no key => the CSR-generation kind and no CA call; CA error => SignerSignErr and no further CA call; list / remove / add-certificate fault => AgentOpCertErr; any panic => Panic; always a *gensign.Error, the process survives; fault-free: nil, CA calls = all requests in order, every returned certificate in the agent; always: certificates added are a subset of those the CA returned. Non-trivial: at least one injected fault was reached and judged."
+const rule = "scenarios: the real regular handler, or a harness handler producing 1..3 agent keys x 1..3 requests through the repository's AgentKey (in a third of the scenarios the requests of one key share one KeyId and name different CA keys; key pairs of the default algorithm, RSA-2048, P-256 / 384 / 521 or Ed25519), CA returning 1..3 certificates per request (validity window as requested / without expiry / until 2^63 s / stamped by a clock 90 s ahead), 0..2 stale labelled certificates in the agent, optionally a rejecting handler in front (rejecting with an error of any kind, incl. the unknown kind and kinds that have no name), run under context.Background, a cancellable context (what cmd/gensign passes) or a deadline context (each case is journaled first: a fault that kills the process instead of coming back as an error is reported with its scenario). Per scenario a fault-free run fixes the number of agent operations n and CA calls m; then EVERY (operation index 0..n-1) x {failure reply, connection closed}, every CA call x {error (plain, typed with the unknown / an unnamed / the signer / a configuration kind, wrapping context.DeadlineExceeded or context.Canceled while the run's own context is alive, io.EOF), panic, error handed back together with certificates, certificates issued for another key} and a panic in each of Name / Authenticate / Generate / CSRs / AddCertsToAgent of the authenticating handler, plus a panic in Authenticate of the handler in front of it, plus - for the harness handler - every way Generate can fail (typed error with / without handler name, wrapped, no keys returned as nil or as an empty list) is executed in a fresh world (exhaustive per scenario; scenarios random). Oracle: challenge fault => AllAuthFailed; agent fault before the first CA call => a typed generation error; Generate failing or returning no key => the CSR-generation kind and no CA call; CA error => SignerSignErr and no further CA call; list / remove / add-certificate fault => AgentOpCertErr; any panic => Panic; always a *gensign.Error, the process survives; fault-free: nil, CA calls = all requests in order, every returned certificate in the agent; always: certificates added are a subset of those the CA returned. Non-trivial: at least one injected fault was reached and judged."
 
 func TestC04Faults(t *testing.T) {
 	vh.Run(t, vh.Spec[Scenario]{Property: "C04", Name: "TestC04Faults", Rule: rule, Journal: true,
 		Gen: func(t *rapid.T) Scenario {
-			s := Scenario{Real: rapid.Bool().Draw(t, "real"), NCerts: rapid.IntRange(1, 3).Draw(t, "ncerts"), Stale: rapid.IntRange(0, 2).Draw(t, "stale"), RejectFirst: rapid.Bool().Draw(t, "rejectFirst"), RejectKind: rapid.SampledFrom([]string{"", "", "disabled", "unknown", "unnamed", "zero", "untyped"}).Draw(t, "rejectKind"),
+			s := Scenario{Real: rapid.Bool().Draw(t, "real"), NCerts: rapid.IntRange(1, 3).Draw(t, "ncerts"), Stale: rapid.IntRange(0, 2).Draw(t, "stale"), RejectFirst: rapid.Bool().Draw(t, "rejectFirst"), RejectKind: rapid.SampledFrom([]string{"", "", "disabled", "unknown", "unnamed", "zero", "untyped", "nocause", "nilcause"}).Draw(t, "rejectKind"),
 				Ctx:    rapid.SampledFrom([]string{"", "cancel", "cancel", "timeout"}).Draw(t, "ctx"),
 				Window: rapid.SampledFrom([]string{"", "", "forever", "ahead", "huge"}).Draw(t, "window")}
 			if !s.Real {
